@@ -49,3 +49,23 @@ CHECKS["C08"]["text"] += (
 CHECKS["C08"]["note"] += (
     " Concrete codecs: translator/gen_cd.py (fail-closed) generates the single-byte tables and the codec-name table; str.encode (strict / xmlcharrefreplace / replace) and bytes.decode of the Coq codecs are compared with the "
     "interpreter on all single bytes, all 0x110000 code points (encodability), and seeded random strings incl. lone surrogates, C1 controls and noncharacters (harness/cdcodecs.py).")
+
+# ---- the last sentence of the property, end to end on the concrete model (Model/Autodetect.v, Proofs/AutodetectProofs.v) ----
+CHECKS["C08"]["text"] += (
+    " SELF-DESCRIBING, END TO END ON THE CONCRETE MODEL: Tag.encode as modelled (concrete encoders) composed with UnicodeDammit as modelled (modelled declaration sniffer, concrete decoders): "
+    "for every tree, every split of its events around a <meta> element rendered as <meta charset=\"e\"/> or <meta content=\"text/html; charset=e\" http-equiv=\"Content-Type\"/> (both proved to be what the model of "
+    "_format_tag writes for a builder-created meta, both formatters), e any of the 14 spellings of ascii / iso-8859-1 / windows-1252 / utf-8 on which codecs.lookup and the model agree: the encoded bytes, given back to "
+    "UnicodeDammit with any exclusion list not naming e, are detected as e (original_encoding = declared_html_encoding = e, no replacement flag) and decode to exactly the rendering (C08_autodetect_declared, "
+    "C08_autodetect_declared_rendering for any str containing the tag) under four side conditions about the ENCODED BYTES, stated as the code has them: no byte-order mark is recognised; the declaration, through the "
+    "character closing the name, lies in the first max(2048, len/20) bytes; the first 1024 bytes are not an XML declaration naming an encoding; nothing earlier in the searched part matches the html pattern "
+    "(decidable forms proved sound, C08_autodetect_conditions_decidable). EACH CONDITION IS NEEDED - four refutations proved inside Coq on the concrete model and reproduced on the real library "
+    "(C08_autodetect_declared_refuted_mark_lookalike: a rendering starting with the text 'ÿþ' in iso-8859-1 is re-detected as utf-16le; _stale_xml_declaration: a <?xml ... encoding=?> processing instruction in front is "
+    "not rewritten and wins; _declaration_in_comment: <!-- <meta charset=x> --> wins; _later_charset_in_tag: <meta charset=\"utf-8\" x=\"charset=latin-1\"/> - inside one tag the rightmost charset is reported). "
+    "BYTE-ORDER MARK: UTF-16 / UTF-32 encoders (both byte orders) defined in Coq with decode(encode s) = s for every string (C08_wide_decode_encode); encode('utf-16'/'utf-32') = the interpreter's mark + little-endian form; "
+    "for EVERY non-empty string the bytes are re-detected through the mark as utf-16le / utf-32le and decode to the rendering, whatever the document declares (C08_autodetect_bom), provided - UTF-16 only - the first "
+    "character is not U+0000 (refuted otherwise: FF FE 00 00 is the UTF-32LE mark, C08_autodetect_bom_refuted_nul_first).")
+CHECKS["C08"]["note"] += (
+    " The hypotheses of C08_autodetect_declared are evaluated by the extracted model (command 21010) on ~110 generated documents per quick run (declarations ending at byte offsets around 1024 / 2048 / the 5 % mark "
+    "behind four kinds of head material - the generators of c08_r4 -, 13 kinds of adversarial material in front, 4 tag variants; 8 spellings of the 4 targets, both styles); for the instances inside the domain (about 70 %; "
+    "counts cd_autodetect_*) the conclusion is checked on the real library; C08_autodetect_bom likewise on ~220 strings (first character from the code-unit classes, lone surrogates, U+0000). Other targets (koi8-r, shift_jis ...) "
+    "remain covered by the oracle of c08_r4 only.")
